@@ -165,6 +165,176 @@ struct no_two_arg
 {
 };
 
+// ------------------------------------------------------------------ histories
+// A distribution may carry state beyond its parameters (std::normal_distribution caches the
+// second value of every generated pair).  Wrapping, copying, moving, reset() and param(set)
+// must treat that state exactly like the wrapped std distribution does.  The reference is never
+// hand-modelled: the std distribution is driven through the identical history (copy where fcppt
+// copies, reset() where fcppt resets, param(x) where fcppt sets parameters) with one std engine
+// in lock step with one fcppt generator.  Only for the route variate(gen, d.param()) the
+// reference is a FRESH std distribution constructed from the used distribution's param():
+// that constructor takes parameters, not a distribution, so no state can travel.
+//   A  k = 0..3 direct draws d(gen); then variate(gen,d), make_variate(gen,d),
+//      variate(gen,d.param()) draw HIST_N values each; then d itself continues
+//   B  after j = 1,3 draws: copy-construct, copy-assign, move-construct, move-assign the
+//      distribution and a variate; every copy and the original continue
+//   C  after j = 1,3 draws: reset()
+//   D  after j = 1,3 draws: param(q)
+constexpr int HIST_N = 6;
+
+template <class E, class P, class StdDist>
+void history(std::string const &nm, P const &p, StdDist const &rd0, u64 const seed, bool const bounded,
+             typename StdDist::result_type const lo, typename StdDist::result_type const hi, P const &q,
+             StdDist const &rq0, typename StdDist::result_type const qlo, typename StdDist::result_type const qhi)
+{
+  using R = typename P::result_type;
+  using base = typename StdDist::result_type;
+  using D = fcppt::random::distribution::basic<P>;
+  using G = typename E::fc;
+  using V = fcppt::random::variate<G, D>;
+
+  G g(fc_seed<E>(seed));
+  typename E::sd ref = sd_engine<E>(seed);
+  bool ok = true;
+  int pre = 0; // number of draws before the operation under test (for the message)
+
+  // draw n values from fc() and sd() in lock step
+  auto draw_n = [&](char const *what, int const n, auto &&fc, auto &&sd, base const l, base const h) {
+    for (int i = 0; ok && i < n; ++i)
+    {
+      R const x = fc();
+      base const w = sd();
+      base const v = rt<R>::unwrap(x);
+      if (bounded && !(l <= v && v <= h))
+      {
+        vrt::fail(nm + ":history:" + what + ":out_of_bounds",
+                  vrt::fmt("after %d earlier draws, draw %d: %s outside [%s,%s]", pre, i, show(v).c_str(), show(l).c_str(),
+                           show(h).c_str()));
+        ok = false;
+      }
+      else if (!same(v, w))
+      {
+        vrt::fail(nm + ":history:" + what, vrt::fmt("after %d earlier draws, draw %d: got %s, std driven the same way gives %s",
+                                                    pre, i, show(v).c_str(), show(w).c_str()));
+        ok = false;
+      }
+    }
+  };
+
+  // A: wrap a used distribution
+  for (int k = 0; ok && k <= 3; ++k)
+  {
+    pre = k;
+    D d(p);
+    StdDist rd(rd0);
+    draw_n("direct", k, [&] { return d(g); }, [&] { return rd(ref); }, lo, hi);
+    {
+      V v(fcppt::make_ref(g), d);
+      StdDist rc(rd);
+      draw_n("variate(gen,used_distribution)", HIST_N, [&] { return v(); }, [&] { return rc(ref); }, lo, hi);
+    }
+    {
+      auto v = fcppt::random::make_variate(fcppt::make_ref(g), d);
+      StdDist rc(rd);
+      draw_n("make_variate(gen,used_distribution)", HIST_N, [&] { return v(); }, [&] { return rc(ref); }, lo, hi);
+    }
+    {
+      V v(fcppt::make_ref(g), d.param());
+      StdDist rf(rd.param()); // fresh: parameters only
+      draw_n("variate(gen,used_distribution.param())", HIST_N, [&] { return v(); }, [&] { return rf(ref); }, lo, hi);
+    }
+    draw_n("original_after_wrapping", HIST_N, [&] { return d(g); }, [&] { return rd(ref); }, lo, hi);
+  }
+
+  // B: copies and moves in the middle of a sequence
+  for (int j = 1; ok && j <= 3; j += 2)
+  {
+    pre = j;
+    {
+      D d(p);
+      StdDist rd(rd0);
+      draw_n("direct", j, [&] { return d(g); }, [&] { return rd(ref); }, lo, hi);
+      D const c(d);
+      StdDist rc(rd);
+      D a(q);
+      StdDist ra(rq0);
+      a = d;
+      ra = rd;
+      D t1(d);
+      D m(std::move(t1));
+      StdDist rm(rd);
+      D ma(q);
+      D t2(d);
+      ma = std::move(t2);
+      StdDist rma(rq0);
+      rma = rd;
+      VRT_CHECK(c == d && a == d && m == d && ma == d, nm + ":history:distribution_copy:equality",
+                "a copy of a distribution used %d times does not compare equal to it", j);
+      D cc(c); // c is const: draw from a copy of the copy as well
+      draw_n("distribution_copy_constructed", HIST_N, [&] { return cc(g); }, [&] { return rc(ref); }, lo, hi);
+      draw_n("distribution_copy_assigned", HIST_N, [&] { return a(g); }, [&] { return ra(ref); }, lo, hi);
+      draw_n("distribution_move_constructed", HIST_N, [&] { return m(g); }, [&] { return rm(ref); }, lo, hi);
+      draw_n("distribution_move_assigned", HIST_N, [&] { return ma(g); }, [&] { return rma(ref); }, lo, hi);
+      draw_n("distribution_original_after_copies", HIST_N, [&] { return d(g); }, [&] { return rd(ref); }, lo, hi);
+    }
+    {
+      V v(fcppt::make_ref(g), p);
+      StdDist rv(rd0);
+      draw_n("variate_direct", j, [&] { return v(); }, [&] { return rv(ref); }, lo, hi);
+      V vc(v);
+      StdDist rc(rv);
+      V va(fcppt::make_ref(g), q);
+      StdDist ra(rq0);
+      va = v;
+      ra = rv;
+      V t1(v);
+      V vm(std::move(t1));
+      StdDist rm(rv);
+      V vma(fcppt::make_ref(g), q);
+      V t2(v);
+      vma = std::move(t2);
+      StdDist rma(rq0);
+      rma = rv;
+      draw_n("variate_copy_constructed", HIST_N, [&] { return vc(); }, [&] { return rc(ref); }, lo, hi);
+      draw_n("variate_copy_assigned", HIST_N, [&] { return va(); }, [&] { return ra(ref); }, lo, hi);
+      draw_n("variate_move_constructed", HIST_N, [&] { return vm(); }, [&] { return rm(ref); }, lo, hi);
+      draw_n("variate_move_assigned", HIST_N, [&] { return vma(); }, [&] { return rma(ref); }, lo, hi);
+      draw_n("variate_original_after_copies", HIST_N, [&] { return v(); }, [&] { return rv(ref); }, lo, hi);
+    }
+  }
+
+  // C: reset() in the middle of a sequence, D: param(q) in the middle of a sequence
+  for (int j = 1; ok && j <= 3; j += 2)
+  {
+    pre = j;
+    {
+      D d(p);
+      StdDist rd(rd0);
+      draw_n("direct", j, [&] { return d(g); }, [&] { return rd(ref); }, lo, hi);
+      d.reset();
+      rd.reset();
+      draw_n("reset", HIST_N, [&] { return d(g); }, [&] { return rd(ref); }, lo, hi);
+    }
+    {
+      D d(p);
+      StdDist rd(rd0);
+      draw_n("direct", j, [&] { return d(g); }, [&] { return rd(ref); }, lo, hi);
+      d.param(q);
+      rd.param(rq0.param());
+      draw_n("param_set", HIST_N, [&] { return d(g); }, [&] { return rd(ref); }, qlo, qhi);
+      VRT_CHECK(d.distribution() == rd, nm + ":history:param_set:state",
+                "wrapped distribution differs from std driven the same way after %d draws + param(set) + %d draws", j, HIST_N);
+    }
+  }
+  if (ok)
+  {
+    auto const raw = g();
+    auto const raw_want = ref();
+    if (raw != raw_want)
+      vrt::fail(nm + ":history:generator_state", "generator state differs from the std engine after the histories");
+  }
+}
+
 // ------------------------------------------------------------------ the lock-step comparison
 // One case = one (parameter set, seed).  The reference sequence comes from a std engine
 // and the std distribution `rd0`; the fcppt side is run through every way of drawing:
@@ -176,6 +346,7 @@ struct no_two_arg
 //   P2 basic(P::convert_to(std dist)) -> d(gen)
 //   W1 basic(q) -> d(gen, param)                          (per-call parameters, q = another parameter set)
 //   W2 basic(q) -> d(gen, param) interleaved with d(gen)
+//   H  the histories of history<>() above (used distributions wrapped / copied / moved / reset / re-parameterised)
 // Each with its own freshly seeded fcppt generator.  After DRAWS draws the generator
 // itself must be in the same state as the std engine (next raw number equal): a variate
 // that drew from a copy of the generator would show here.
@@ -335,6 +506,7 @@ void lockstep(std::string const &nm, P const &p, StdDist const &rd0, u64 const s
   };
   with_param("d(q)(gen,p) every draw", false);
   with_param("d(q)(gen,p) interleaved with d(gen)", true);
+  history<E>(nm, p, rd0, seed, bounded, lo, hi, q, rq0, qlo, qhi);
 }
 
 // "reach both ends": over the whole seed set (seeds in order, DRAWS draws each, stops
